@@ -9,9 +9,13 @@ Theorems about `Ecal.Debug` (model of `interpreter/debug.go`).
   `continue_completes`, `released_thread_progresses`, `stop_releases_all`;
   old code: `lost_resume_reachable` (negative witness);
 * decision functions: `suspends_at_active_breakpoint`, `step_semantics_stepin`,
-  `step_semantics_stepover`, `step_semantics_stepout`, and — for a thread in ANY debugging
-  situation — `suspends_whenever_arriving` with `line_tracks_last_visit`
-  (needs fix "stepping honours break points" in `VisitState`);
+  `step_semantics_stepover`, `step_semantics_stepout`, and over TRACES: `suspends_whenever_arriving`
+  (a thread in any debugging situation that arrives at a line with an active break point from a
+  different position — `lastAt`, tied to the state by `pos_tracks_lastAt` — is suspended),
+  `suspends_arriving_from_other_line` (the literal reading);
+* the recorded call stack: `callstack_assertion_never_fails` (the sanity assertion of
+  `VisitStepOutState` holds on every event stream `executeFunction` can show a debugger attached at
+  any moment of one execution), `depth_is_stack_length` (the model's depth is that stack's length);
 * "observer only": in the model the debugger cannot touch the evaluator's state BY TYPE — a remark
   (`example`), not an obligation. For the Go CODE "same result, log and variables" is NOT a theorem:
   it is the regenerated facts (`observer_accesses_allowed`, …: what the code's visit functions touch)
@@ -935,6 +939,80 @@ theorem callstack_assertion_never_fails {t : List Ev} (h : Seen t) : assertsOk [
   | ret l e hb _ ih =>
     rw [assertsOk_append, (matched_ok hb []).2, (matched_ok hb []).1]
     simpa [assertsOk, assertOk, goStackStep] using ih
+
+theorem applyAct_depth (d : Dbg) (a : Act) : (applyAct d a).depth = d.depth := by
+  have hops : ∀ (ops : List BpOp) (d : Dbg), (ops.foldl applyOp d).depth = d.depth := by
+    intro ops
+    induction ops with
+    | nil => intro d; rfl
+    | cons o os ih =>
+      intro d
+      simp only [List.foldl_cons]
+      rw [ih]
+      cases o <;> simp [applyOp] <;> split <;> rfl
+  unfold applyAct
+  have h0 := hops a.ops d
+  generalize (a.ops.foldl applyOp d) = d1 at h0 ⊢
+  cases a.cmd with
+  | none =>
+    simp only [applyKill]
+    split
+    · exact h0
+    · split <;> simp [h0]
+  | some c =>
+    simp only [applyCont]
+    split
+    · exact h0
+    · split <;> simp [h0]
+
+theorem park_depth (r : Run) (l : Loc) : (park r l).d.depth = r.d.depth := by
+  unfold park
+  split <;> simp [applyAct_depth]
+
+theorem visitState_depth (r : Run) (l : Loc) : (visitState r l).d.depth = r.d.depth := by
+  unfold visitState visitFresh
+  repeat' split
+  all_goals simp [park_depth]
+
+/-- one event: the model's call depth stays the length of the recorded stack -/
+theorem depth_step (r : Run) (e : Ev) (st : List Loc) (hal : Alive r) (h : r.d.depth = st.length) :
+    (stepEv r e).d.depth = (goStackStep st e).length := by
+  obtain ⟨⟨is, depth, bps, bos, boe⟩, script, susp, killed, crashed⟩ := r
+  obtain ⟨hk, hc⟩ := hal
+  simp only at hk hc h
+  subst hk hc h
+  cases e with
+  | visit l => simp [stepEv, goStackStep, visitState_depth]
+  | finished => simp [stepEv, goStackStep, threadFinished]
+  | enter l =>
+    simp only [stepEv, Bool.or_self, Bool.false_eq_true, if_false, stepInState, goStackStep, List.length_cons]
+  | exit l err =>
+    simp only [stepEv, Bool.or_self, Bool.false_eq_true, if_false, stepOutState, goStackStep, List.length_tail]
+    repeat' split
+    all_goals simp_all [park_depth]
+
+/-- **The model's depth is the length of the recorded call stack.** Along every trace on which the thread
+stays alive, the call depth of the model the driver runs (`Dbg.depth`, what step-over / step-out compare)
+equals the length of the stack Go records (`goStack`) — so the ghost stack of
+`callstack_assertion_never_fails` is a refinement of the model's state, not a second model. -/
+theorem depth_is_stack_length (t : List Ev) :
+    ∀ (r : Run) (st : List Loc), r.d.depth = st.length → Alive (runTrace r t) →
+      (runTrace r t).d.depth = (goStack st t).length := by
+  induction t with
+  | nil => intro r st h _; exact h
+  | cons e t ih =>
+    intro r st h hal
+    rw [runTrace_cons] at hal ⊢
+    have hr : Alive r := by
+      by_cases hr : Alive r
+      · exact hr
+      · rw [stepEv_dead r e hr, runTrace_dead t r hr] at hal
+        exact absurd hal hr
+    have := ih (stepEv r e) (goStackStep st e) (depth_step r e st hr h) hal
+    simpa [goStack] using this
+
+example : (runTrace (Run.init tryExceptDbg []) tryExceptTrace).d.depth = (goStack [] tryExceptTrace).length := by
+  decide
 
 /-- non-vacuity: attached inside `g` called from `f`; `g` returns, `f` calls `h` and returns; then a call
 that is still running -/
